@@ -169,7 +169,7 @@ PROPS["C12"] = dict(
          "{0,1,2,3,5,8,64,65} (and the default buffer) x every item count up to 3 buffers + 2 x value stream {pattern, all ones incl. bits above the width, alternating 0/1, thorough: all zeros} x {push, extend<u8|u16|u32|u64|usize> fed by iterators with an exact size hint, with lower bound 0 (filter) and with no bounds (from_fn)} x ending {close, close twice, drop, drop by the unwinding of an unrelated panic}. "
          "RawVectorWriter: every push history up to depth d over a 12-letter alphabet (push_bit 0/1, push_int at widths 0,1,7,31,32,33,63,64) and, to depth 3/5, over a 7-letter alphabet of small values (zero bits where an item straddles the buffer limit) x buffer sizes {0,1,64,65,128,192} x endings, with and without a parent header, plus long prefixes that "
          "fill the buffer exactly. Every writer is opened on a path that already holds a longer file of other bytes (4 KiB or 64 KiB, derived from the case). After every push len(); is_open before/after; second close Ok and bytes unchanged; IntVector files load back equal. A state is a history; distinct = histories with at least one bit pushed.",
-    bounds={"quick": "10 widths, depth 4: ~430 000 histories", "thorough": "64 widths, depth 5: ~4.8 M histories"},
+    bounds={"quick": "10 widths, depth 4: ~430 000 histories", "thorough": "64 widths, depth 5: ~5.2 M histories"},
     require_counters={},
     assumptions=[HOOK_ASSUMPTION, "I/O failures are C14's scope; dropping a RawVectorWriter that has a parent header is not generated (the parent is documented to call close_with_header)"],
 )
